@@ -1387,6 +1387,13 @@ func UtxoValidateInsufficientCollateral(
 			totalCollateral.Add(totalCollateral, amount)
 		}
 	}
+	// The collateral balance is what the collateral inputs hold minus what
+	// the collateral return output gives back
+	if collReturn := tx.CollateralReturn(); collReturn != nil {
+		if amount := collReturn.Amount(); amount != nil {
+			totalCollateral.Sub(totalCollateral, amount)
+		}
+	}
 	// minCollateral = fee * collateralPercentage / 100
 	fee := tmpTx.Fee()
 	if fee == nil {
